@@ -122,7 +122,25 @@ def _exclusive_groups(atoms):
     return [g for g in groups.values() if len(g) > 1]
 
 
+def _norm_assume(atoms, assume):
+    """A rule may name the truth of a multi-bit value X by the atom 'X' (true = non-zero); the guards spell it
+    `0 == X` negated (ir.literals).  Translate such keys, so that both spellings of an assumption mean the same."""
+    if not assume:
+        return assume
+    atoms = set(atoms)
+    out = {}
+    for k, v in assume.items():
+        if k not in atoms and ('0 == ' + k) in atoms and v is not None:
+            out['0 == ' + k] = not v
+        elif k not in atoms and k.startswith('0 == ') and k[5:] in atoms and v is not None:
+            out[k[5:]] = not v
+        else:
+            out[k] = v
+    return out
+
+
 def assignments(atoms, assume=None):
+    assume = _norm_assume(atoms, assume)
     atoms = sorted(set(atoms) - set(assume or {}))
     if len(atoms) > MAX_ATOMS:
         raise AnalysisError('too many guard atoms to enumerate (%d): %s' % (len(atoms), atoms[:6]))
